@@ -262,6 +262,8 @@ def spawn_execs(ctx):
     # two Process objects alive at the same time (descriptor numbers freed by one are taken by the other)
     for code1, nin1, nout1, code2, nout2, nerr2 in [(0, 5, 5, 3, 7, 9), (2, 0, 100, 0, 4096, 1), (1, 4096, 1, 255, 1, 4096), (0, 1, 1, 0, 0, 0)]:
         ex.append(["spawn2 %d %d %d %d %d %d" % (code1, nin1, nout1, code2, nout2, nerr2)])
+        # ... the second child started while the first child's stdin is still open (it must not inherit that descriptor)
+        ex.append(["spawn2 %d %d %d %d %d %d 1" % (code1, nin1, nout1, code2, nout2, nerr2)])
     return ex
 
 
